@@ -63,7 +63,13 @@ MANIFEST = dict(
          "under an alarm and the CPU limit; heap and read-work meters (peak live heap, reads made with the stream already at its end, "
          "hard stop at 48 Mi such reads) run on unmodified IFF-family files extended by thousands of repeated zero/4-byte chunks of every id "
          "the file uses, on every synthetic module, and on a field sweep (one 32-bit field = 2^31-1 / 2^32-1 at every offset of small "
-         "files, the first/last KiB and behind every header pointer of larger ones).",
+         "files, the first/last KiB and behind every header pointer of larger ones). Every metered file goes through three entry points "
+         "(memory, FILE handle = data-on-request paths, by path = the one that unpacks). Further unmodified-input oracles: `reloc` sweep "
+         "(plausible header offsets / offset-table runs moved by one large constant); XM with OpenMPT-style extension blocks of every "
+         "known id under the field sweep; MMCMP empty-sub-block bomb in the search; a module packed 1..1000 times over in stored "
+         "MMCMP / gzip / zip / LHA / ARC, by path with a 1 MiB stack (one level loads, deeper is -XMP_ERROR_FORMAT at once), backed by the "
+         "generated call-graph fact C02_decrunch_one_level (libxmp_decrunch never calls back into itself); hostile 9-bit LZW code "
+         "streams (undefined / self-referential entries, CLEAR + KwKwK) in ARC crunch/squash, Spark and ArcFS 12/13/16 bits, .Z 9/12/16.",
     note="Trusted: Lean kernel; the C08/C09/C03/C20 models the work theorems are stated over (their ties to the C are the correspondences of "
          "those checks: the step functions of XmpModel/WorkBound.lean are proved equal to them, no new trust); model XmpModel/IffWalk.lean "
          "(tied here: harness/c02_iff.c compiles iff.c with recording hio wrappers and compares return value, number of loop tests and every "
@@ -85,7 +91,7 @@ MANIFEST = dict(
     design_ref="DESIGN.md section 4 C02",
 )
 REQUIRED = ["Xmp.MixLoop.C02_mixer_iterations", "Xmp.MixLoop.C02_mixer_samples", "Xmp.MixLoop.C02_grow_capped",
-            "Xmp.MixLoop.C02_depack_limit_sites", "Xmp.MixLoop.C02_depack_limit_value",
+            "Xmp.MixLoop.C02_depack_limit_sites", "Xmp.MixLoop.C02_depack_limit_value", "Xmp.MixLoop.C02_decrunch_one_level",
             # termination / size theorems re-exported from their owners (C16, C17, C18, C20) in C02's vocabulary
             "Xmp.C02.C02_next_order_terminates", "Xmp.C02.C02_play_frame_returns", "Xmp.C02.C02_set_position_terminates",
             "Xmp.C02.C02_scan_terminates", "Xmp.C02.C02_ticksize_bound", "Xmp.C02.C02_sample_alloc_le",
@@ -188,6 +194,14 @@ def make_bombs(dirname, quick):
             f.write(c02_gens.mmcmp_rewrite_bomb(4 << 20))
         os.rename(p + ".tmp", p)
     out.append(p)
+    # MMCMP: 20000 block-table entries naming one stored block of 20000 EMPTY sub-blocks: no output, so the output budget is
+    # never used, but every entry re-reads the sub-block table (fixed by the sub-block count budget)
+    p = os.path.join(dirname, "emptysub-20000.mmcmp")
+    if not os.path.exists(p):
+        with open(p + ".tmp", "wb") as f:
+            f.write(c02_gens.mmcmp_empty_subblock_bomb(20000, 20000))
+        os.rename(p + ".tmp", p)
+    out.append(p)
     return out
 
 
@@ -228,6 +242,13 @@ def build_meter():
 def run_meter_group(args):
     exe, mode, files = args
     rc, out, err = vlib.run_exe(exe, mode + files, timeout=3600)
+    return rc, out.decode("latin-1"), err[-600:], files
+
+
+def run_meter_small_stack(args):
+    """the same with a 1 MiB stack: recursion whose depth follows the input shows as a crash early"""
+    exe, mode, files = args
+    rc, out, err = vlib.run_exe("/bin/sh", ["-c", 'ulimit -s 1024; exec "$0" "$@"', exe] + mode + files, timeout=3600)
     return rc, out.decode("latin-1"), err[-600:], files
 
 
@@ -485,17 +506,73 @@ def run(ck):
     mres = list(vlib.pmap(run_meter_group, [(mexe, ["meter"], meter_files[i::16]) for i in range(16) if meter_files[i::16]]))
     n_m, worst_m = meter_verdicts(ck, "meter", limit, mres)
     ck.note("metered_unmodified", {"files": n_m, "worst": worst_m})
+    # (a2) a module packed k times over (k = 1 .. 1000) in every container that can store data cheaply, by path, 1 MiB stack:
+    #      the library unpacks ONE level — k = 1 loads, k >= 2 is "not a module" at once; work, heap and stack stay flat in k
+    nest_dir = os.path.join(scratch, "nest-%d" % ck.seed)
+    shutil.rmtree(nest_dir, ignore_errors=True)
+    os.makedirs(nest_dir, exist_ok=True)
+    nest_files, depth_of = [], {}
+    for name, data, depth in c02_gens.nested_set((1, 2, 3, 10, 100, 1000) if quick else (1, 2, 3, 10, 100, 1000, 10000)):
+        path = os.path.join(nest_dir, name)
+        with open(path, "wb") as fh:
+            fh.write(data)
+        nest_files.append(path)
+        depth_of[path] = depth
+    nres = list(vlib.pmap(run_meter_small_stack, [(mexe, ["meter"], nest_files[i::8]) for i in range(8) if nest_files[i::8]]))
+    for rc, out, err, fl in nres:
+        if rc not in (0, 14, 15) and not re.search(r"^(HANG|WORK) ", out, re.M):
+            done = set(re.findall(r"^metered (.*?) load=", out, re.M))
+            bad = next((f for f in fl if f not in done), fl[0])
+            ck.violation("nesting-crash@" + os.path.basename(bad), {"kind": "meter", "mode": "meter", "file": bad, "stderr": err},
+                         "%s (a module packed %d times over, 1 MiB stack): test/load by path died with rc=%s — stack use follows "
+                         "the nesting depth of the input" % (os.path.basename(bad), depth_of.get(bad, 0), rc))
+        for m in re.finditer(r"^metered (.*?) load=(-?\d+) fload=(-?\d+) pload=(-?\d+) ", out, re.M):
+            d = depth_of.get(m.group(1), 0)
+            want = 0 if d == 1 else -3
+            if int(m.group(4)) != want:
+                ck.violation("nesting-depth@" + os.path.basename(m.group(1)), {"kind": "meter", "mode": "meter", "file": m.group(1)},
+                             "%s (a module packed %d times over): xmp_load_module returned %s, documented behaviour is %d (one level "
+                             "of unpacking)" % (os.path.basename(m.group(1)), d, m.group(4), want))
+    n_n, worst_n = meter_verdicts(ck, "meter", limit, [r for r in nres if r[0] in (0, 14, 15)])
+    ck.note("nested_archives", {"files": len(nest_files), "worst": worst_n})
+    # (a3) hostile LZW code streams (undefined / self-referential entries, CLEAR followed by KwKwK, codes far above the table) in
+    #      every LZW width variant: ARC crunch / squash, Spark and ArcFS compress 12 / 13 / 16 bits, compress(1) 9 / 12 / 16 bits
+    lzw_dir = os.path.join(scratch, "lzw-%d" % ck.seed)
+    shutil.rmtree(lzw_dir, ignore_errors=True)
+    os.makedirs(lzw_dir, exist_ok=True)
+    lzw_files = []
+    for name, data in c02_gens.hostile_lzw_set(random.Random(ck.seed * 389 + 17)):
+        path = os.path.join(lzw_dir, name)
+        with open(path, "wb") as fh:
+            fh.write(data)
+        lzw_files.append(path)
+    lres = list(vlib.pmap(run_meter_group, [(mexe, ["meter"], lzw_files[i::16]) for i in range(16) if lzw_files[i::16]]))
+    n_l, worst_l = meter_verdicts(ck, "meter", limit, lres)
+    ck.note("hostile_lzw_streams", {"files": n_l, "worst": worst_l})
     per_ext = {}
     for f in syn:
         per_ext.setdefault(os.path.splitext(f)[1], []).append(f)
     field_files = [f for ext, fl in sorted(per_ext.items()) for f in sorted(fl, key=os.path.getsize)[:2 if quick else 8]]
     field_files += sorted(f for f in reps.values() if os.path.getsize(f) <= (16384 if quick else 262144) and not is_packed(f))
+    for k in range(2 if quick else 8):          # XM with OpenMPT-style extension blocks of every known id behind the samples
+        data, ext = c02_gens.xm_with_extensions(random.Random(ck.seed * 77 + k))
+        path = os.path.join(rep_dir, "xmext%d.%s" % (k, ext))
+        with open(path, "wb") as fh:
+            fh.write(data)
+        field_files.append(path)
     # one process per file: a memory error of the uninstrumented library on one variant (C01's subject, reported as a note
     # with the file, not as a C02 violation) must not hide the other files
     fres = list(vlib.pmap(run_meter_group, [(mexe, ["fields", "1024" if quick else "8192"], [f]) for f in field_files]))
     crashes = [(os.path.basename(fl[0]), rc) for rc, out, err, fl in fres if rc not in (0, 14, 15) and not re.search(r"^(HANG|WORK) ", out, re.M)]
     fres = [r for r in fres if r[0] in (0, 14, 15) or re.search(r"^(HANG|WORK) ", r[1], re.M)]
     n_f, worst_f = meter_verdicts(ck, "fields", limit, fres)
+    # (c2) every plausible header offset moved by the same large constant (offset tables keep their order and distances):
+    #      all representatives and synthetic modules, memory and FILE handle (format tests that fetch data on request)
+    reloc_files = sorted(set(f for f in reps.values() if not is_packed(f)) | set(syn))
+    rres = list(vlib.pmap(run_meter_group, [(mexe, ["reloc"], reloc_files[i::16]) for i in range(16) if reloc_files[i::16]]))
+    rcrash = [(os.path.basename(fl[0]), rc) for rc, out, err, fl in rres if rc not in (0, 14, 15) and not re.search(r"^(HANG|WORK) ", out, re.M)]
+    n_r, worst_r = meter_verdicts(ck, "fields", limit, [r for r in rres if r[0] in (0, 14, 15) or re.search(r"^(HANG|WORK) ", r[1], re.M)])
+    ck.note("offset_relocation_sweep", {"files": len(reloc_files), "variants": n_r, "worst": worst_r, "memory_errors(C01)": rcrash})
     ck.note("field_sweep", {"files": len(field_files), "variants": n_f, "worst": worst_f,
                             "memory_errors_seen_on_the_plain_build(C01)": crashes})
 
